@@ -545,8 +545,72 @@ func renderInt(c *C, x *big.Int) string {
 	}
 }
 
+// randRoundingBoundary: a literal at, just below or just above the midpoint between two adjacent float32 (or
+// float64) values, incl. the overflow threshold MaxFloat + half an ulp and the smallest subnormal's half — the only
+// places where "correctly rounded" differs from "rounded twice" or "rounded the other way". Many significant digits.
+func randRoundingBoundary(c *C) string {
+	var lo, hi float64
+	if c.Rand.Intn(3) != 0 {
+		f := math.Float32frombits(uint32(c.Rand.Int63n(0x7f800000)))
+		switch c.Rand.Intn(8) {
+		case 0:
+			f = math.MaxFloat32
+		case 1:
+			f = float32(uint32(1) << uint(c.Rand.Intn(31)))
+		case 2:
+			f = math.Float32frombits(uint32(c.Rand.Intn(4))) // 0 and the smallest subnormals
+		case 3:
+			f = float32(1<<24) + float32(2*c.Rand.Intn(64))
+		}
+		lo, hi = float64(f), float64(math.Nextafter32(f, float32(math.Inf(1))))
+		if math.IsInf(hi, 1) {
+			hi = 0x1p128
+		}
+	} else {
+		f := math.Float64frombits(uint64(c.Rand.Int63n(0x7ff0000000000000)))
+		switch c.Rand.Intn(6) {
+		case 0:
+			f = math.MaxFloat64
+		case 1:
+			f = float64(uint64(1) << uint(c.Rand.Intn(63)))
+		case 2:
+			f = math.Float64frombits(uint64(c.Rand.Intn(4)))
+		}
+		lo, hi = f, math.Nextafter(f, math.Inf(1))
+	}
+	mid := new(big.Float).SetPrec(2400).SetFloat64(lo)
+	if math.IsInf(hi, 1) { // MaxFloat64: the threshold is 2^1024 - 2^970
+		h := new(big.Float).SetPrec(2400).SetMantExp(big.NewFloat(1), 1024)
+		mid.Add(mid, h)
+	} else {
+		mid.Add(mid, new(big.Float).SetPrec(2400).SetFloat64(hi))
+	}
+	mid.Quo(mid, big.NewFloat(2))
+	if k := c.Rand.Intn(3); k != 0 && mid.Sign() != 0 { // nudge by a relative 2^-j, far below the ulp
+		d := new(big.Float).SetPrec(2400).SetMantExp(mid, -(26 + c.Rand.Intn(200)))
+		if k == 1 {
+			mid.Add(mid, d)
+		} else {
+			mid.Sub(mid, d)
+		}
+	}
+	digits := []int{17, 20, 25, 40, 80, 160, 400}[c.Rand.Intn(7)]
+	var s string
+	if e := mid.MantExp(nil); e > -60 && e < 130 && c.Rand.Intn(2) == 0 {
+		s = mid.Text('f', digits)
+	} else {
+		s = strings.Replace(mid.Text('e', digits), "e+", []string{"e", "E+", "e+"}[c.Rand.Intn(3)], 1)
+	}
+	if c.Rand.Intn(4) == 0 {
+		s = "-" + s
+	}
+	return s
+}
+
 func randLiteral(c *C) string {
-	switch c.Rand.Intn(10) {
+	switch c.Rand.Intn(12) {
+	case 10, 11:
+		return randRoundingBoundary(c)
 	case 0, 1, 2, 3, 4, 5:
 		return renderInt(c, randTarget(c))
 	case 6: // non-integers near integers
